@@ -449,3 +449,681 @@ def sock_lists(tier):
         for t in itertools.product(kinds, repeat=k):
             out.append(list(t))
     return out
+
+
+# -- the correspondence and the search --------------------------------------------------------
+
+def dec_token(t):
+    """protocol token -> value understood by py_value (for replays)"""
+    k, r = t[0], t[1:]
+    if k == "N":
+        return None
+    if k == "B":
+        return r == "1"
+    if k == "I":
+        v = 0
+        neg = r.startswith("-")
+        for ch in r.lstrip("-"):
+            v = v * 10 + (ord(ch) - 48)
+        return -v if neg else v
+    if k == "S":
+        return uncps(r)
+    if k == "L":
+        return [uncps(x) for x in r.split(";")] if r else []
+    if k == "K":
+        return [SockDesc(x[0] == "1", x[1], x[2]) for x in r.split(";")] if r else []
+    raise ValueError(t)
+
+
+def kw_tokens(kw):
+    return [[k, enc_value(v)] for k, v in kw]
+
+
+def show(res):
+    if res is None:
+        return "none"
+    if res[0] == "OK":
+        return "OK " + " ".join("%s=%s" % kv for kv in sorted(res[1].items()))
+    if res[0] == "HELP":
+        return "HELP"
+    return "%s %s" % (res[0], res[1])
+
+
+class Run:
+    """accumulates model queries, statistics and disagreements"""
+
+    def __init__(self, ctx, runner, A):
+        self.ctx, self.runner, self.A = ctx, runner, A
+        self.env = env_token(A)
+        self.defaults = class_defaults(A)
+        self.q, self.cb = [], []
+        self.evaluations = 0
+        self.nontrivial = set()
+        self.dist = {}
+        self.model_bad = []   # (group, text, replay)
+        self.spec_bad = []    # (key, text, replay, kf_class)
+        self.samples = []
+
+    def count(self, group, outcome):
+        d = self.dist.setdefault(group, {})
+        d[outcome] = d.get(outcome, 0) + 1
+
+    def ask(self, line, cb):
+        self.q.append(line)
+        self.cb.append(cb)
+
+    def flush(self):
+        if not self.q:
+            return
+        ans = self.runner.query(self.q) if self.runner is not None else ["ERR no runner"] * len(self.q)
+        q, cb = self.q, self.cb
+        self.q, self.cb = [], []
+        for l, a, f in zip(q, ans, cb):
+            f(a)
+
+    # one keyword-form case: real vs model
+    def kw_case(self, group, kw, real=None):
+        if real is None:
+            real = real_construct(self.A, kw)
+        self.evaluations += 1
+        self.count(group, real[0] if real[0] == "OK" else real[1])
+        if real[0] == "OK":
+            self.nontrivial.add(("kw", repr(kw_tokens(kw))))
+        line = "construct %s %s" % (self.env, " ".join("%s:%s" % (cps(k), enc_value(v)) for k, v in kw))
+
+        def cb(a, kw=kw, real=real):
+            m = parse_model_attrs(a)
+            if not same_construct(real, m, self.defaults):
+                self.model_bad.append((group, "Adjustments(**kw): model %s / implementation %s" % (show(m)[:300], show(real)[:300]),
+                                       {"kind": "kw", "kw": kw_tokens(kw), "model": a[:2000], "observed": show(real)[:2000]}))
+        self.ask(line.rstrip(), cb)
+        return real
+
+    def cli_case(self, group, argv, real=None):
+        if real is None:
+            real = real_cli(self.A, argv)
+        self.evaluations += 1
+        self.count(group, real[0] if real[0] in ("OK", "HELP") else real[1])
+        if real[0] == "OK":
+            self.nontrivial.add(("cli", repr(argv)))
+
+        def cb(a, argv=argv, real=real):
+            m = parse_model_attrs(a)
+            ok = (m[0] == real[0] == "HELP") or same_construct(real, m, self.defaults)
+            if not ok:
+                self.model_bad.append((group, "runner form %r: model %s / implementation %s" % (argv, show(m)[:300], show(real)[:300]),
+                                       {"kind": "cli", "argv": list(argv), "model": a[:2000], "observed": show(real)[:2000]}))
+        self.ask(("cli %s %s" % (self.env, " ".join(cps(x) for x in argv))).rstrip(), cb)
+        return real
+
+    def parse_case(self, group, argv):
+        real, _ = real_parse(self.A, argv)
+        self.evaluations += 1
+
+        def cb(a, argv=argv, real=real):
+            w = a.split(" ")
+            if w[0] == "OK":
+                m = ("OK", {uncps(t.partition(":")[0]): t.partition(":")[2] for t in w[1:]})
+            else:
+                m = (w[0], w[1] if len(w) > 1 else "")
+            if m != real:
+                self.model_bad.append((group, "parse_args(%r): model %s / implementation %s" % (argv, show(m)[:300], show(real)[:300]),
+                                       {"kind": "parse", "argv": list(argv), "model": a[:2000], "observed": show(real)[:2000]}))
+        self.ask(("parse %s" % " ".join(cps(x) for x in argv)).rstrip(), cb)
+
+    def cast_case(self, group, castname, fn, v):
+        self.evaluations += 1
+        try:
+            r = canon_setting(castname, fn(py_value(v)))
+            if castname == "CSockets":
+                r = canon_setting("sockets", fn(py_value(v)))
+        except Exception as e:
+            r = "EXN " + exn_name(e)
+        if not r.startswith("EXN"):
+            self.nontrivial.add(("cast", castname, enc_value(v)))
+        self.count(group, "value" if not r.startswith("EXN") else r[4:])
+
+        def cb(a, v=v, r=r):
+            if canon_model_token(a) != r:
+                self.model_bad.append((group, "%s(%r): model %s / implementation %s" % (castname, v, a[:200], r[:200]),
+                                       {"kind": "cast", "cast": castname, "value": enc_value(v), "model": a[:2000], "observed": r[:2000]}))
+        self.ask("cast %s %s" % (castname, enc_value(v)), cb)
+
+    def violation(self, key, text, replay, kf=None):
+        self.spec_bad.append((key, text, replay, kf))
+
+
+def orderings(names, tier, rng):
+    names = list(names)
+    if tier == "thorough":
+        return [list(p) for p in itertools.permutations(names)]
+    out = [names, names[::-1]]
+    if len(names) > 2:
+        p = names[:]
+        rng.shuffle(p)
+        out.append(p)
+    return out
+
+
+def group_excl(R, model_names):
+    """all subsets of the exclusive options on the real constructor: against the
+    specification (two different groups present <-> refused), against the model,
+    and against the generated formula"""
+    tier, rng = R.ctx.tier, R.ctx.rng
+    names = [n for g in EXCL_SPEC_GROUPS for n in g]
+    benign = {"listen": "127.0.0.1:8080", "host": "127.0.0.1", "port": 8080,
+              "sockets": [SockDesc(True, "i", "s")], "unix_socket": "/tmp/c20.sock"}
+    emptyish = {"listen": "", "host": "", "port": "0", "sockets": [], "unix_socket": ""}
+    subsets_seen = 0
+    for k in range(0, len(names) + 1):
+        for sub in itertools.combinations(names, k):
+            subsets_seen += 1
+            want = spec_two_groups(sub)
+            for vals in (benign, emptyish):
+                for order in orderings(sub, tier, rng):
+                    for extra in ([], [("threads", "3")], [("bogus_option", 1)]):
+                        kw = [(n, vals[n]) for n in order] + extra
+                        real = R.kw_case("excl", kw)
+                        refused = real == ("EXN", "ValueError")
+                        if extra and extra[0][0] == "bogus_option":
+                            if not refused:
+                                R.violation("unknown-name-accepted", "unknown adjustment accepted: %r" % (kw,),
+                                            {"kind": "kw", "kw": kw_tokens(kw), "expected": "EXN ValueError", "observed": show(real)[:500],
+                                             "failing_input_found": True})
+                            continue
+                        if refused != want:
+                            R.violation("excl:" + "+".join(sorted(sub)),
+                                        "mutually exclusive options %s: specification says %s, Adjustments(**kw) %s" % (
+                                            sorted(sub), "refuse" if want else "accept", show(real)[:120]),
+                                        {"kind": "kw", "kw": kw_tokens(kw), "expected": "EXN ValueError" if want else "accepted",
+                                         "observed": show(real)[:500], "failing_input_found": True})
+                        if real[0] not in ("OK",) and not refused:
+                            R.violation("excl-exn:" + "+".join(sorted(sub)), "unexpected %s" % show(real),
+                                        {"kind": "kw", "kw": kw_tokens(kw), "expected": "EXN ValueError" if want else "accepted",
+                                         "observed": show(real)[:500], "failing_input_found": True})
+            # the generated formula itself, on this subset
+
+            def cb(a, sub=sub, want=want):
+                if (a == "1") != want:
+                    R.model_bad.append(("excl-gen", "generated excl on %s = %s, specification %s" % (sorted(sub), a, want),
+                                        {"kind": "excl-formula", "present": list(sub), "model": a, "observed": str(want)}))
+            R.ask(("excl %s" % " ".join(cps(n) for n in sub)).rstrip(), cb)
+        close_socks()
+    if sorted(model_names) != sorted(names):
+        R.model_bad.append(("excl-names", "the exclusion chain mentions %s, the specification groups are %s" % (sorted(model_names), sorted(names)),
+                            {"kind": "excl-names", "model": sorted(model_names), "observed": sorted(names)}))
+    return subsets_seen
+
+
+def group_proxy(R):
+    tps = [None, "", "1.2.3.4", "*"]
+    counts = [None, "2", 1]
+    hdrs = HEADER_VALUES
+    for tp in tps:
+        for c in counts:
+            for h in hdrs:
+                kw = []
+                if tp is not None:
+                    kw.append(("trusted_proxy", tp))
+                if h is not None or True:
+                    pass
+                if c is not None:
+                    kw.append(("trusted_proxy_count", c))
+                kw.append(("trusted_proxy_headers", h)) if h != "ABSENT" else None
+                for order in (kw, kw[::-1]):
+                    real = R.kw_case("proxy", order)
+                    if isinstance(h, (str, list)):
+                        hs = h.split() if isinstance(h, str) else [x for y in h for x in y.split()]
+                        want = spec_proxy_refused(bool(tp), c is not None, hs)
+                        refused = real == ("EXN", "ValueError")
+                        if refused != want:
+                            R.violation("proxy:%s:%s:%s" % (bool(tp), c is not None, sorted(set(x.lower() for x in hs))),
+                                        "proxy options %r: specification says %s, implementation %s" % (order, "refuse" if want else "accept", show(real)[:100]),
+                                        {"kind": "kw", "kw": kw_tokens(order), "expected": "EXN ValueError" if want else "accepted",
+                                         "observed": show(real)[:500], "failing_input_found": True})
+            # without trusted_proxy_headers at all
+            kw = ([("trusted_proxy", tp)] if tp is not None else []) + ([("trusted_proxy_count", c)] if c is not None else [])
+            real = R.kw_case("proxy", kw)
+            want = spec_proxy_refused(bool(tp), c is not None, [])
+            if (real == ("EXN", "ValueError")) != want:
+                R.violation("proxy:%s:%s:none" % (bool(tp), c is not None), "proxy options %r: specification says %s, implementation %s" % (
+                    kw, "refuse" if want else "accept", show(real)[:100]),
+                    {"kind": "kw", "kw": kw_tokens(kw), "expected": "EXN ValueError" if want else "accepted",
+                     "observed": show(real)[:500], "failing_input_found": True})
+    # the generated table, all 64 rows, against the specification formula
+    for bits in itertools.product("01", repeat=6):
+        b = "".join(bits)
+        tpn, tpcn, hn, hu, hf, ho = [x == "1" for x in bits]
+        want = (not tpcn and tpn) or (hn and tpn) or (hn and hu) or (hn and hf and ho)
+
+        def cb(a, b=b, want=want):
+            if (a[0] == "1") != want:
+                R.model_bad.append(("proxy-gen", "generated proxy_refused on %s = %s, specification %s" % (b, a, want),
+                                    {"kind": "proxy-formula", "bits": b, "model": a, "observed": str(want)}))
+        R.ask("proxy " + b, cb)
+
+
+def group_sockets(R):
+    for n, l in enumerate(sock_lists(R.ctx.tier)):
+        kw = [("sockets", l)]
+        real = R.kw_case("sockets", kw)
+        want = spec_socks_refused(l, hasattr(socket, "AF_UNIX"))
+        if (real == ("EXN", "ValueError")) != want:
+            R.violation("sockets:" + ";".join(sorted(set(d.code() for d in l))),
+                        "socket list %s: specification says %s, implementation %s" % ([d.code() for d in l], "refuse" if want else "accept", show(real)[:100]),
+                        {"kind": "kw", "kw": kw_tokens(kw), "expected": "EXN ValueError" if want else "accepted",
+                         "observed": show(real)[:500], "failing_input_found": True})
+        if n % 50 == 49:
+            R.flush()
+            close_socks()
+    R.flush()
+    close_socks()
+
+
+def group_families(R):
+    """ipv4/ipv6 switches: the family handed to getaddrinfo must honour both"""
+    for v4 in (True, False, "true", "false"):
+        for v6 in (True, False, "true", "false"):
+            for listen in ("*:80", "127.0.0.1:80 [::1]:81"):
+                kw = [("ipv4", v4), ("ipv6", v6), ("listen", listen)]
+                calls = []
+                old = socket.getaddrinfo
+
+                def spy(*a, **k):
+                    calls.append(a[2] if len(a) > 2 else k.get("family"))
+                    return old(*a, **k)
+                socket.getaddrinfo = spy
+                try:
+                    real = R.kw_case("families", kw)
+                finally:
+                    socket.getaddrinfo = old
+                b4, b6 = v4 in (True, "true"), v6 in (True, "true")
+                if real[0] == "OK" or calls:
+                    fams = set(calls)
+                    allowed4 = any(f in (socket.AF_UNSPEC, socket.AF_INET) for f in fams)
+                    allowed6 = any(f in (socket.AF_UNSPEC, socket.AF_INET6) for f in fams)
+                    if allowed4 != b4 or allowed6 != b6:
+                        kf = "kf_c20_both_families_disabled" if (not b4 and not b6) else None
+                        R.violation("families:%s:%s" % (b4, b6),
+                                    "ipv4=%r ipv6=%r: getaddrinfo asked for family %s (IPv4 allowed=%s, IPv6 allowed=%s)" % (
+                                        v4, v6, sorted(int(f) for f in fams), allowed4, allowed6),
+                                    {"kind": "families", "kw": kw_tokens(kw), "expected": "IPv4 allowed=%s IPv6 allowed=%s or refused" % (b4, b6),
+                                     "observed": "families %s" % sorted(int(f) for f in fams), "failing_input_found": True}, kf)
+
+
+def cli_name(name):
+    return name.replace("_", "-")
+
+
+def group_values(R, truthy):
+    """every adjustment x representative values of its type: the cast alone, the
+    keyword form, both runner spellings; runner form == keyword form (search)"""
+    A, tier, rng = R.A, R.ctx.tier, R.ctx.rng
+    pools = {
+        "CBool": bool_values(truthy, rng, tier),
+        "CInt": int_values(rng, tier),
+        "COctal": octal_values(rng, tier),
+        "CList": listen_values(rng, tier),
+        "CSet": HEADER_VALUES,
+        "CSlash": slash_values(rng, tier),
+        "CStr": STR_VALUES,
+        "CStrIfTruthy": TRUTHY_STR_VALUES,
+        "CSockets": [[], [SockDesc(True, "i", "s")], [SockDesc(False, "i", "s"), SockDesc(True, "u", "s")], "abc", "", None, 5, ["x"]],
+    }
+    import gen_adjust
+    castname = {}
+    for name, fn in A.Adjustments._params:
+        castname[name] = gen_adjust.CASTS.get(fn.__name__, "?" + fn.__name__)
+    # the casts on their own, once per kind
+    done = set()
+    for name, fn in A.Adjustments._params:
+        c = castname[name]
+        if c in done or c not in pools:
+            continue
+        done.add(c)
+        for v in pools[c]:
+            R.cast_case("cast-" + c, c, fn, v)
+        if c == "CList":
+            for s in aslist_strings(rng, tier):
+                R.cast_case("cast-CList", c, fn, s)
+        R.flush()
+        close_socks()
+    # every option
+    per_option = 40 if tier == "quick" else 400
+    for name, fn in A.Adjustments._params:
+        c = castname[name]
+        pool = pools.get(c, [])
+        if len(pool) > per_option:
+            head = pool[: per_option // 2]
+            pool = head + rng.sample(pool[per_option // 2:], per_option - len(head))
+        context = [("trusted_proxy", "10.0.0.1")] if name in ("trusted_proxy_headers", "trusted_proxy_count") else []
+        for v in pool:
+            kw = context + [(name, v)]
+            kwres = R.kw_case("option-kw", kw)
+            if c != "CBool" and not isinstance(v, str):
+                continue
+            ctx_argv = ["--trusted-proxy=10.0.0.1"] if context else []
+            if c == "CBool":
+                if v is True or v is False:
+                    argv = ctx_argv + ["--" + ("" if v else "no-") + cli_name(name), "pkg:app"]
+                    cres = R.cli_case("option-cli", argv)
+                    R.parse_case("parse", argv)
+                    sres = real_construct(A, context + [(name, "true" if v else "false")])
+                    if not (cres == kwres == sres):
+                        R.violation("cli-kw:%s" % name, "%s: runner form %r gives %s, keyword form %r gives %s / %s" % (
+                            name, argv, show(cres)[:160], v, show(kwres)[:160], show(sres)[:160]),
+                            {"kind": "cli-vs-kw", "argv": argv, "kw": kw_tokens(kw), "expected": "identical settings",
+                             "observed": "cli: %s | kw: %s" % (show(cres)[:400], show(kwres)[:400]), "failing_input_found": True})
+                continue
+            for argv in (ctx_argv + ["--%s=%s" % (cli_name(name), v), "pkg:app"], ctx_argv + ["--" + cli_name(name), v, "pkg:app"]):
+                cres = R.cli_case("option-cli", argv)
+                R.parse_case("parse", argv)
+                if cres != kwres:
+                    R.violation("cli-kw:%s" % name, "%s: runner form %r gives %s, keyword form %r gives %s" % (
+                        name, argv, show(cres)[:200], v, show(kwres)[:200]),
+                        {"kind": "cli-vs-kw", "argv": argv, "kw": kw_tokens(kw), "expected": "identical settings",
+                         "observed": "cli: %s | kw: %s" % (show(cres)[:400], show(kwres)[:400]), "failing_input_found": True})
+        R.flush()
+        close_socks()
+
+
+def group_cli_shapes(R):
+    """the pre-parser itself: abbreviations, missing/forbidden arguments, --, help, app handling"""
+    shapes = [
+        [], ["pkg:app"], ["--help"], ["--help", "pkg:app"], ["--call", "pkg:app"], ["--app=pkg:app"], ["--app", "pkg:app"],
+        ["--app=pkg:app", "other"], ["a", "b"], ["--", "pkg:app"], ["--", "--host=x"], ["-", "x"], ["-x", "pkg:app"], ["-h"],
+        ["--bogus", "pkg:app"], ["--bogus=1", "pkg:app"], ["--no-threads", "pkg:app"], ["--no-host", "pkg:app"],
+        ["--thr=7", "pkg:app"], ["--threads", "pkg:app"], ["--host"], ["--ipv4=1", "pkg:app"], ["--no-ipv4=0", "pkg:app"],
+        ["--no-ipv", "pkg:app"], ["--no-e", "pkg:app"], ["--no", "pkg:app"], ["--no-", "pkg:app"], ["--ex", "pkg:app"],
+        ["--l", "pkg:app"], ["--li=a:1", "pkg:app"], ["--lo", "pkg:app"], ["--log-s", "pkg:app"], ["--c", "pkg:app"], ["--cal", "pkg:app"],
+        ["--he"], ["--h", "x"], ["--ho=h", "pkg:app"], ["--p=1", "pkg:app"], ["--po=1", "pkg:app"],
+        ["--no-help", "pkg:app"], ["--no-call", "pkg:app"], ["--no-app", "pkg:app"], ["--help=1"], ["--call=1", "pkg:app"],
+        ["--sockets=x", "pkg:app"], ["--sockets", "", "pkg:app"], ["--host=a", "--listen=b:1", "pkg:app"],
+        ["--listen=a:1", "--listen=b:2", "pkg:app"], ["--listen", "a:1", "--listen=a:1", "pkg:app"], ["--listen=", "pkg:app"],
+        ["--listen=a:1\nb:2", "--listen", " c:3 ", "pkg:app"], ["--listen=a:1", "--port=5", "pkg:app"],
+        ["--unix-socket=/x", "--host=a", "pkg:app"], ["--unix-socket=/x", "--unix-socket-perms=644", "pkg:app"],
+        ["--port=1", "--port=2", "pkg:app"], ["--ipv4", "--no-ipv4", "pkg:app"], ["--no-ipv4", "--ipv4", "pkg:app"],
+        ["--no-ipv4", "--no-ipv6", "--listen=*:80", "pkg:app"] if False else ["--no-ipv6", "--listen=*:80", "pkg:app"],
+        ["--host=x", "pkg:app", "--port=1"], ["pkg:app", "--port=1"], ["--port", "--host", "pkg:app"], ["--host=--port=1", "pkg:app"],
+        ["--url-prefix", "//a//", "pkg:app"], ["--trusted-proxy-headers=forwarded", "pkg:app"],
+        ["--trusted-proxy=*", "--trusted-proxy-headers=forwarded x-forwarded-for", "pkg:app"],
+        ["--trusted-proxy=*", "--trusted-proxy-headers=Forwarded", "--trusted-proxy-count=3", "pkg:app"],
+        ["--trusted-proxy-count=3", "pkg:app"], ["--help", "--bogus"], ["--help", "--port=x"], ["--port=x", "--help"],
+        ["--call", "--app=m:f", "--help"], ["--app=a", "--app=b"], ["--call", "--call", "m:f"],
+        ["--listen_x=1", "pkg:app"], ["--trusted_proxy=1", "pkg:app"], ["--trusted-proxy=1", "pkg:app"], ["--=x", "pkg:app"], ["--=", "x"],
+    ]
+    for argv in shapes:
+        R.cli_case("cli-shape", argv)
+        R.parse_case("parse", argv)
+    R.flush()
+
+
+def group_cli_random(R, truthy):
+    """random multi-option command lines; runner form == the keyword form it denotes"""
+    A, tier, rng = R.A, R.ctx.tier, R.ctx.rng
+    import gen_adjust
+    params = [(n, gen_adjust.CASTS.get(f.__name__, "?")) for n, f in A.Adjustments._params]
+    good = {"CInt": ["1", "80", " 7 ", "x", "5_0", "-1"], "COctal": ["600", "0o644", "9"], "CStr": ["h", "", "a b", "::1", "*"],
+            "CStrIfTruthy": ["", "1.2.3.4", "*"], "CSlash": ["", "/a/", "b"], "CSet": ["", "forwarded", "x-forwarded-for X-Forwarded-By", "nope"],
+            "CList": ["a:1", "a:1 b:2", "*:80", "", "c:3\nd:4", "bad:port", " [::1]:9 "], "CSockets": ["x"]}
+    n = 400 if tier == "quick" else 6000
+    for _ in range(n):
+        k = rng.randint(1, 5)
+        argv, kw, order = [], {}, []
+        for _ in range(k):
+            name, c = rng.choice(params)
+            if rng.random() < 0.25:
+                name, c = "listen", "CList"
+            if c == "CBool":
+                val = rng.random() < 0.5
+                argv.append("--" + ("" if val else "no-") + cli_name(name))
+                v = "true" if val else "false"
+            else:
+                v = rng.choice(good[c])
+                if rng.random() < 0.5:
+                    argv.append("--%s=%s" % (cli_name(name), v))
+                else:
+                    argv += ["--" + cli_name(name), v]
+            if name not in kw:
+                order.append(name)
+                kw[name] = v if name != "listen" else " " + v
+            elif name == "listen":
+                kw[name] = kw[name] + " " + v
+            else:
+                kw[name] = v
+        argv.append("m:app")
+        cres = R.cli_case("cli-random", argv)
+        kwl = [(nm, kw[nm]) for nm in order]
+        kres = real_construct(A, kwl)
+        R.evaluations += 1
+        if cres != kres:
+            R.violation("cli-kw-multi", "runner form %r gives %s, the keyword form %r gives %s" % (argv, show(cres)[:200], kwl, show(kres)[:200]),
+                        {"kind": "cli-vs-kw", "argv": argv, "kw": kw_tokens(kwl), "expected": "identical settings",
+                         "observed": "cli: %s | kw: %s" % (show(cres)[:400], show(kres)[:400]), "failing_input_found": True})
+    R.flush()
+
+
+def group_unknown(R):
+    for name in ["bogus", "Host", "host ", " host", "no_ipv4", "app", "help", "call", "HOST", "listen_", "socket", "_params", "trusted-proxy", ""]:
+        for v in ("x", 1, None):
+            kw = [(name, v)]
+            real = R.kw_case("unknown", kw)
+            if real != ("EXN", "ValueError"):
+                R.violation("unknown-name-accepted", "unknown adjustment %r: %s" % (name, show(real)[:100]),
+                            {"kind": "kw", "kw": kw_tokens(kw), "expected": "EXN ValueError", "observed": show(real)[:500],
+                             "failing_input_found": True})
+    R.flush()
+
+
+class _DummySock:
+    def setblocking(self, b):
+        pass
+
+    def fileno(self):
+        return 987
+
+    def getpeername(self):
+        return ("127.0.0.1", 0)
+
+    def getsockname(self):
+        return ("127.0.0.1", 0)
+
+    def setsockopt(self, *a):
+        pass
+
+    def getsockopt(self, *a):
+        return 0
+
+    def close(self):
+        pass
+
+    def listen(self, n):
+        pass
+
+
+class _DummyDispatcher:
+    def set_thread_count(self, n):
+        pass
+
+    def shutdown(self, *a, **k):
+        pass
+
+
+def group_middleware(R):
+    """server.py: the proxy-headers middleware is installed iff trusted_proxy or clear_untrusted_proxy_headers"""
+    from waitress.server import TcpWSGIServer
+    for tp in (None, "", "10.1.1.1", "*"):
+        for clear in (True, False, None):
+            kw = {}
+            if tp is not None:
+                kw["trusted_proxy"] = tp
+            if clear is not None:
+                kw["clear_untrusted_proxy_headers"] = clear
+            adj = R.A.Adjustments(**kw)
+            app = object()
+            srv = TcpWSGIServer(app, map={}, _start=False, _sock=_DummySock(), dispatcher=_DummyDispatcher(), adj=adj,
+                                sockinfo=(socket.AF_INET, socket.SOCK_STREAM, 6, ("127.0.0.1", 0)), bind_socket=False)
+            installed = srv.application is not app
+            try:
+                srv.trigger.close()
+            except Exception:
+                pass
+            R.evaluations += 1
+            tp_truthy = bool(adj.trusted_proxy)
+            cl = bool(adj.clear_untrusted_proxy_headers)
+            if tp_truthy and not installed:
+                R.violation("middleware-missing", "trusted_proxy=%r but the proxy-headers middleware is not installed" % tp,
+                            {"kind": "middleware", "kw": [[k, enc_value(v)] for k, v in kw.items()], "expected": "installed",
+                             "observed": "not installed", "failing_input_found": True})
+
+            def cb(a, installed=installed, kw=kw):
+                if (a == "1") != installed:
+                    R.model_bad.append(("middleware", "install condition on %r: model %s, implementation %s" % (kw, a, installed),
+                                        {"kind": "middleware", "kw": [[k, enc_value(v)] for k, v in kw.items()], "model": a, "observed": str(installed)}))
+            R.ask("mw %s%s" % ("1" if tp_truthy else "0", "1" if cl else "0"), cb)
+    R.flush()
+
+
+def group_tables(R):
+    """generated tables against the imported module and an independent reading of the docs"""
+    A = R.A
+    import gen_adjust
+    notes = []
+
+    def expect(cmd, want, what, split=";"):
+        def cb(a):
+            got = [uncps(x) for x in a.split(split)] if a else []
+            if got != want:
+                R.model_bad.append(("tables", "%s: generated %s, independent reading %s" % (what, got, want),
+                                    {"kind": "table", "table": what, "model": got, "observed": want}))
+        R.ask(cmd, cb)
+    expect("docs", docs_names_independent(), "option names in docs/arguments.rst")
+    expect("truthy", sorted(A.truthy), "truthy")
+    expect("known", sorted(A.KNOWN_PROXY_HEADERS), "KNOWN_PROXY_HEADERS")
+
+    def cb_help(a):
+        got = [uncps(t.split(":")[0]) for t in a.split(" ")] if a else []
+        want = help_names_independent()
+        if got != want:
+            R.model_bad.append(("tables", "HELP options: generated %s, independent reading %s" % (got, want),
+                                {"kind": "table", "table": "help", "model": got, "observed": want}))
+    R.ask("help", cb_help)
+
+    def cb_params(a):
+        got = [(uncps(t.split(":")[0]), t.split(":")[1]) for t in a.split(" ")] if a else []
+        want = [(n, gen_adjust.CASTS.get(f.__name__, "?" + f.__name__)) for n, f in A.Adjustments._params]
+        if got != want or dict(A.Adjustments._params) != A.Adjustments._param_map:
+            R.model_bad.append(("tables", "_params: generated %s, imported %s" % (got, want),
+                                {"kind": "table", "table": "params", "model": got, "observed": want}))
+    R.ask("params", cb_params)
+    # the long option list the real parse_args hands to getopt
+    seen = {}
+    old = getopt.getopt
+
+    def spy(args, shortopts, longopts=[]):
+        seen["long"] = list(longopts)
+        seen["short"] = shortopts
+        return old(args, shortopts, longopts)
+    getopt.getopt = spy
+    try:
+        A.Adjustments.parse_args(["--help"])
+    finally:
+        getopt.getopt = old
+    expect("longopts", seen.get("long", []), "long_opts handed to getopt")
+    if seen.get("short") != "":
+        R.model_bad.append(("tables", "short options are %r, the model assumes none" % seen.get("short"), {"kind": "table", "table": "shortopts"}))
+    for name, _ in A.Adjustments._params:
+        for s, cmd, want in ((name, "mangle", name.replace("_", "-")), ("--" + name.replace("_", "-"), "unmangle", ("--" + name.replace("_", "-")).lstrip("-").replace("-", "_")),
+                             ("--no-" + name.replace("_", "-"), "unmangle", ("no-" + name.replace("_", "-")).replace("-", "_"))):
+            def cb(a, s=s, cmd=cmd, want=want):
+                if uncps(a) != want:
+                    R.model_bad.append(("tables", "%s(%r): generated %r, Python %r" % (cmd, s, uncps(a), want), {"kind": "table", "table": cmd}))
+            R.ask("%s %s" % (cmd, cps(s)), cb)
+    # str.lower() on everything outside latin-1 never lands on an ASCII letter the model compares with
+    bad = [c for c in range(256, 0x110000) if any(ord(x) < 128 for x in chr(c).lower())]
+    letters = set("".join(sorted(A.truthy)) + "".join(sorted(A.KNOWN_PROXY_HEADERS)))
+    for c in bad:
+        if set(chr(c).lower()) & letters:
+            R.model_bad.append(("tables", "str.lower() maps U+%04X onto a letter used by truthy / KNOWN_PROXY_HEADERS; the model lower-cases latin-1 only" % c,
+                                {"kind": "table", "table": "lower"}))
+    # splitlines
+    alpha = "a\n\r\x0b\x0c\x1c\x1d\x1e\x1f\x85   "
+    strs = ["".join(t) for k in range(0, 4) for t in itertools.product(alpha, repeat=k)]
+    for s in strs:
+        def cb(a, s=s):
+            want = "L" + ";".join(cps(x) for x in s.splitlines())
+            if a != want:
+                R.model_bad.append(("tables", "splitlines(%r): model %s, Python %s" % (s, a, want), {"kind": "table", "table": "splitlines"}))
+        R.ask("splitlines " + cps(s), cb)
+        R.evaluations += 1
+    R.flush()
+    return notes
+
+
+def run_all(ctx, runner):
+    import sys
+    sys.path.insert(0, os.path.join(vcommon.VERIF, "translate"))
+    with stubs() as A:
+        R = Run(ctx, runner, A)
+        names = []
+        if runner is not None:
+            try:
+                names = [uncps(x) for x in runner.query(["exclnames"])[0].split(";")]
+            except Exception as e:  # pragma: no cover
+                ctx.notes.append("exclnames query failed: %r" % (e,))
+        subsets = group_excl(R, names)
+        R.flush()
+        group_proxy(R)
+        R.flush()
+        group_sockets(R)
+        group_families(R)
+        R.flush()
+        group_unknown(R)
+        group_values(R, set(A.truthy))
+        group_cli_shapes(R)
+        group_cli_random(R, set(A.truthy))
+        group_middleware(R)
+        group_tables(R)
+        R.flush()
+        close_socks()
+    R.subsets = subsets
+    return R
+
+
+def replay_one(data):
+    """re-run one replay dict on the real code; 0 if it no longer fails"""
+    with stubs() as A:
+        kind = data.get("kind")
+        if kind in ("kw", "families"):
+            kw = [(k, dec_token(t)) for k, t in data["kw"]]
+            if kind == "families":
+                calls = []
+                old = socket.getaddrinfo
+
+                def spy(*a, **k):
+                    calls.append(int(a[2]))
+                    return old(*a, **k)
+                socket.getaddrinfo = spy
+                try:
+                    real = real_construct(A, kw)
+                finally:
+                    socket.getaddrinfo = old
+                now = "families %s" % sorted(set(calls))
+                print("kw=%r -> %s (%s)" % (kw, show(real)[:200], now))
+                return 1 if now == data.get("observed") else 0
+            real = real_construct(A, kw)
+            now = "EXN ValueError" if real == ("EXN", "ValueError") else ("accepted" if real[0] == "OK" else show(real))
+            print("Adjustments(**%r) -> %s ; expected %s" % (kw, show(real)[:300], data.get("expected")))
+            return 0 if now == data.get("expected") else 1
+        if kind == "cli-vs-kw":
+            kw = [(k, dec_token(t)) for k, t in data["kw"]]
+            c = real_cli(A, data["argv"])
+            k = real_construct(A, kw)
+            print("runner form %r -> %s\nkeyword form %r -> %s" % (data["argv"], show(c)[:400], kw, show(k)[:400]))
+            return 0 if c == k else 1
+        if kind == "cli":
+            c = real_cli(A, data["argv"])
+            print("runner form %r -> %s ; model said %s" % (data["argv"], show(c)[:400], data.get("model")))
+            return 0 if show(c)[:2000] != data.get("observed") else 1
+        print("replay kind %r: re-run ./check C20" % kind)
+        return 1
